@@ -8,7 +8,11 @@ Line protocol (one op per line; see harness/c15.cpp for the implementation side)
   SUPPR = errorId fileName line symbol polyspace column checked matched extraComment inline type lineBegin lineEnd macroName hash thisAndNext
   ser MSG | des <hex> | fix <hex> | pl <hex> | senc SUPPR | pw <type> <hex> | pwmsg MSG | wsup <n> SUPPR* |
   hr <emitdup> <ids> <hex> | htl <emitdup> <ids> <n> MSG*
-  sched <kind t|p> <jobs> <seed> <nfiles> {<nmsg> MSG*}*      run the executor model under a pseudo-random schedule
+  sched <kind t|p> <jobs> <seed> <ids> <nfiles> {<nmsg> MSG*}*      run the executor model under a pseudo-random schedule
+  lg <tmpl 0|1|2> <jobs> <seed> <nglob> {<idhex> <filehex> <line>}* <nfiles> {<nraw> {MSG <locSup> <noFail>}*}*
+        the whole pipeline (per-file logger, gate, sink) of the three executor models on given logger inputs:
+        -> "L single=<keys;result> thread=<…> process=<…>"   (template {id} | {id}|{file} | {id}|{file}|{line};
+        the listed (id, file, line) views are the ones a non-local suppression matches)
 `Path::simplifyPath` is a parameter of the model: the driver runs it with the identity and marks every string the
 model passes through it with a leading `~`; the check applies the real function (harness op `simp`) to those.
 Text after " # " is model-only information (not compared).
@@ -162,6 +166,29 @@ def pfiles : Nat → P (List (List Msg))
   | 0 => pure []
   | n + 1 => do let k ← pnat; let ms ← prep pmsg k; let r ← pfiles n; pure (ms :: r)
 
+def keyOf (k : Nat) (m : Msg) : Str :=
+  let (file, line) : Str × Int := match m.stack.getLast? with
+    | some l => (l.file, l.line)
+    | none => ("nofile".toList, 0)
+  match k with
+  | 0 => m.id
+  | 1 => m.id ++ '|' :: file
+  | _ => m.id ++ '|' :: file ++ '|' :: renderInt line
+
+def pview : P (Str × Str × Int) := do let a ← pstr; let b ← pstr; let c ← pint; pure (a, b, c)
+
+def praw : P Raw := do
+  let m ← pmsg; let l ← pbool; let nf ← pbool
+  pure { msg := m, locSup := l, locSupX := l, noFail := nf }
+
+def prawfiles : Nat → P (List (List Raw))
+  | 0 => pure []
+  | n + 1 => do let k ← pnat; let rs ← prep praw k; let r ← prawfiles n; pure (rs :: r)
+
+def showKeysBy (cfg : Cfg) (o : Outcome) : String :=
+  let ks := (o.sink.reported.map (fun m => toHex (cfg.key2 m))).foldr insertStr []
+  ",".intercalate ks ++ s!";{o.result}"
+
 def step (line : String) : String :=
   match fields line with
   | "ser" :: rest =>
@@ -214,6 +241,28 @@ def step (line : String) : String :=
       | some (ms, []) => "H " ++ htlGo (cfgOf (ed != "0") ids) [] ms
       | _ => "bad-op"
     | _, _ => "bad-op"
+  | "lg" :: tk :: jobs :: seed :: ng :: rest =>
+    match tk.toNat?, jobs.toNat?, seed.toNat?, ng.toNat? with
+    | some tk, some jobs, some seed, some ng =>
+      match (do let g ← prep pview ng; let nf ← pnat; let fs ← prawfiles nf; pure (g, fs)).run rest with
+      | some ((g, fs), []) =>
+        let cfg : Cfg :=
+          { key := keyOf tk, key2 := keyOf tk, supG := fun v => g.contains (v.errorId, v.file, v.line),
+            supGX := fun v => g.contains (v.errorId, v.file, v.line), critical := fun _ => false, dedupFix := dedupFixApplied, simp := id }
+        let raws : Nat → List Raw := fun i => fs.getD i []
+        let files := List.range fs.length
+        let single := runSingle cfg raws files
+        let total := ((fs.map List.length).sum)
+        let t := match tWalk cfg raws (4 * total + 4 * fs.length + 4 * jobs + 8) seed (tinit files jobs) 0 with
+          | some (s, _) => showKeysBy cfg s.outcome
+          | none => "stuck"
+        let p := match pWalk cfg jobs raws (4 * total + 8 * fs.length + 8) seed (pinit files) 0 with
+          | some (s, _) => showKeysBy cfg s.outcome
+          | none => "stuck"
+        let ok := files.all fun f => keyOK cfg (raws f) && dedupOK cfg (raws f)
+        s!"L single={showKeysBy cfg single} thread={t} process={p} # hyp={b01 ok}"
+      | _ => "bad-op"
+    | _, _, _, _ => "bad-op"
   | "sched" :: kind :: jobs :: seed :: ids :: nf :: rest =>
     match jobs.toNat?, seed.toNat?, idsOf ids, nf.toNat? with
     | some jobs, some seed, some ids, some nf =>
